@@ -24,7 +24,7 @@ def a2():
         rem = meta.get('remainder') or '; '.join(meta.get('uncovered', [])[:2]) or '—'
         kf = c.get('known_finding_obligations', 0)
         if kf:
-            rem += ' — %d KNOWN FINDING (A.5)' % kf
+            rem = ('' if rem == '—' else rem + ' — ') + '%d KNOWN FINDING (A.5)' % kf
         rows.append('| %s | %s | %d | %d | %d | %s | %.1f | %.0f | %s |' % (pid, e['level'], nf, len(obs), paths, modes, mq, e['wall_s'], rem))
     return '\n'.join(rows)
 
